@@ -201,3 +201,48 @@ PROPS["C09"] = {
 PROPS["C13"]["mir"].append(ob("deferred_deadline_inv", "ob_storage", "deferred_deadline_inv"))
 PROPS["C04"]["mir"]  # restore_loads_index now also carries the C14 claim (no suspension between pop and install)
 PROPS["C14"]["mir"].append(ob("restore_no_suspension", "ob_storage", "restore_loads_index"))
+
+PROPS["C10"]["kani"] = [
+    H("c10_bit_mapping_mem_vs_file", "in-memory probe (u64 words) and on-file probe (bytes of the LE image) address the same bit; to_raw_vec is the word vector",
+      ["AtomicBitVec::{from_raw_slice,get,to_raw_vec,items_count}", "OffsetAndMaskCalculator::{offset_and_mask_u8,get_bit_u8}"], "bit counts 1..=70 (not multiples of 64 included), all word values, all bit indices", covers=3, timeout=600),
+    H("c10_bitvec_or_with_union", "or_with is the bitwise union and refuses a different bit count", ["AtomicBitVec::or_with"], "70 bits, all word values", covers=1, timeout=300),
+    H("c10_bitvec_set_get", "set(i) makes get(i) true and leaves other bits alone", ["AtomicBitVec::{set,get,items_count}"], "bit counts 1..=70", covers=1, timeout=900, tier="thorough"),
+    H("c10_range_add_contains", "RangeFilterInner::add/contains: closed interval of the added keys, never loses a contained key", ["RangeFilterInner::{add,contains}"],
+      "K = ArrayKey<2>, arbitrary pre-state", covers=2, timeout=300),
+    H("c10_range_merge_superset", "merge_with yields a superset of both operands", ["RangeFilterInner::merge_with"], "K = ArrayKey<2>", covers=2, timeout=300),
+    H("c10_range_empty_and_clear", "empty / cleared range filter", ["RangeFilterInner::{new,clear,add,contains}"], "K = ArrayKey<2>", covers=1, timeout=300),
+    H("c10_filter_result_conservative", "FilterResult + is NotContains only if both are; default is NeedAdditionalCheck", ["<FilterResult as Add>::add", "FilterResult::default"], "all values", covers=1, timeout=120),
+]
+PROPS["C10"]["assumptions"] = COMMON_K + PROPS["C10"]["assumptions"]
+
+PROPS["C17"] = {
+    "level": "model_checking",
+    "kani": [
+        H("c17_record_header_layout_k1", "record header: magic u64 | key len u64 | key | meta_size | data_size | flags u8 | blob_offset | timestamp | data_checksum u32 | header_checksum u32; decoder inverse; patch positions",
+          ["RecordHeader::{to_raw,from_raw,serialized_size,blob_offset_offset,checksum_offset}"], "key length 1, all field values", covers=1, timeout=600),
+        H("c17_record_header_layout_k4", "same, key length 4", ["RecordHeader::{to_raw,from_raw,serialized_size}"], "key length 4, all field values", covers=1, timeout=600),
+        H("c17_blob_header_layout_and_validation", "blob header: magic u64 | version u32 | flags u64; validate accepts exactly magic 0xdeafabcd + version 1",
+          ["blob::Header::{validate,validate_without_version,serialized_size,new}", "bincode (de)serialize of blob::Header"], "all field values", covers=2, timeout=600),
+        H("c17_index_header_layout", "index header encoder layout incl. hash length prefix, version byte (version<<1|written), key_size u16, blob_size",
+          ["bincode serialize of IndexHeader", "IndexHeader::serialized_size"], "hash of 4 bytes, all scalar values", covers=1, timeout=600),
+        H("c17_tree_meta_layout", "TreeMeta = leaves_offset | tree_offset, NodeMeta = size; decoders invert", ["TreeMeta::{new,from_raw,serialized_size_default}", "NodeMeta::{new,serialized_size_default}"],
+          "all values", covers=1, timeout=300),
+        H("c09_node_new_serialized_layout", "inner node = NodeMeta | keys | offsets", ["Node::new_serialized", "Node::serialized_size_with_keys"], "2 keys of 2 bytes", covers=1, timeout=600),
+        H("c03_validate_exact_k2", "index header accepted iff written, version 6, key size, exact blob size, magic (key-size / version mismatch rejected)",
+          ["<BPTreeFileIndex<ArrayKey<2>> as FileIndexTrait>::validate"], "all header values", covers=4, timeout=600),
+    ],
+    "mir": [],
+    "assumptions": COMMON_K + ["layout differential against the byte layout of the pinned release written out in the harnesses (field order, widths, little-endian, length prefixes, magics, versions)",
+                               "outside: replay of a corpus of old files (concrete testing, not done), aHash outputs and seeds, SHA-256, bloom Save layout (f64 field)"],
+}
+PROPS["C09"]["kani"].append(H("c09_node_binary_search_k1", "in-node binary search over serialized keys: Ok(index of equal key) / Err(insertion point)", ["Node::binary_search_serialized"],
+                              "n <= 4 sorted one-byte keys, all queries", covers=3, timeout=300))
+
+PROPS["C16"] = {
+    "level": "model_checking",
+    "kani": [],
+    "mir": [ob("recover_addressable", "ob_tools", "recover_addressable"), ob("reader_eof_exact", "ob_tools", "reader_eof_exact"),
+            ob("migration_all_records", "ob_tools", "migration_all_records")],
+    "assumptions": COMMON_M + ["bincode (de)serialization and std::fs::File reads/writes of the tools are arbitrary-outcome events; only positions, lengths and which header is written are tracked",
+                               "outside: validate_blob / validate_index acceptance of every storage-produced file, byte-level damage classes, index-reading tools, meta bytes (covered by no checksum in the format)"],
+}
